@@ -653,6 +653,108 @@ fn search_fp(budget: usize, seed: u64) -> Option<Fail> {
     None
 }
 
+// ------------------------------------------------------------------ mode: history (C13)
+
+fn apply_op(env: &E, op: usize, a: B, b: B, c: B, ids: &[usize]) -> B {
+    match op % 12 {
+        0 => env.and(a, b),
+        1 => env.or(a, b),
+        2 => env.not(a),
+        3 => env.xor(a, b),
+        4 => env.ite(a, b, c),
+        5 => env.exists(vec![ids[op / 12 % ids.len()]], a),
+        6 => env.all(vec![ids[op / 12 % ids.len()], ids[0]], a),
+        7 => env.aln(&[a, b, c], (op / 12 % 4) as i64),
+        8 => env.model(a),
+        9 => env.retain_choice_bottom_up(a, if op / 12 % 2 == 0 { TruthTableEntry::True } else { TruthTableEntry::False }),
+        10 => env.clean(a),
+        _ => env.eq(a, b),
+    }
+}
+
+/// case: ids | seed | steps | drop(0/1)     one environment, a growing pool of results; every result must equal the one a
+/// fresh environment computes from the same operands, every earlier result must still denote the same function, and the
+/// leaves must stay available.  drop=1: nothing but a constant is kept alive before `clean` is called.
+fn case_history(case: &str) -> Option<Fail> {
+    let p: Vec<&str> = case.split('|').collect();
+    let ids = parse_ids(p[0]);
+    let mut rng = Rng(p[1].parse::<u64>().unwrap() | 1);
+    let steps: usize = p[2].parse().unwrap();
+    let env = E::new();
+    tick();
+    if p[3] == "1" {
+        let r = quiet(|| {
+            let t = {
+                let x = env.var(ids[0]);
+                env.or(x.clone(), env.not(x))
+            };
+            let t2 = env.clean(t.clone());
+            let f = env.mk_const(false);
+            let v = env.var(ids[1]);
+            let nv = env.not(v.clone());
+            (t2, f, env.and(v, nv))
+        });
+        return match r {
+            Err(pn) => Some(Fail { case: case.into(), expected: "leaves stay available after clean".into(), actual: pn }),
+            Ok((t2, f, z)) => {
+                if *t2 != BDD::True || *f != BDD::False || *z != BDD::False {
+                    Some(Fail { case: case.into(), expected: "True / False / False".into(), actual: format!("{} {} {}", show(&t2), show(&f), show(&z)) })
+                } else {
+                    None
+                }
+            }
+        };
+    }
+    let mut pool: Vec<(B, Vec<bool>)> = vec![];
+    for v in &ids {
+        let x = env.var(*v);
+        let t = table(&x, &ids);
+        pool.push((x, t));
+    }
+    for step in 0..steps {
+        let (ia, ib, ic) = (rng.below(pool.len()), rng.below(pool.len()), rng.below(pool.len()));
+        let op = rng.next() as usize % 96;
+        let (a, b, c) = (pool[ia].0.clone(), pool[ib].0.clone(), pool[ic].0.clone());
+        let r = quiet(|| apply_op(&env, op, a.clone(), b.clone(), c.clone(), &ids));
+        let fresh = E::new();
+        let (fa, fb, fc) = (build(&fresh, &ids, &pool[ia].1), build(&fresh, &ids, &pool[ib].1), build(&fresh, &ids, &pool[ic].1));
+        let want = quiet(|| apply_op(&fresh, op, fa, fb, fc, &ids));
+        tick();
+        match (r, want) {
+            (Err(pn), Ok(_)) => return Some(Fail { case: format!("{case} step {step} op {op}"), expected: "same as a fresh environment (no panic)".into(), actual: pn }),
+            (Ok(r), Ok(w)) => {
+                if *r != *w {
+                    return Some(Fail { case: format!("{case} step {step} op {op}"), expected: format!("fresh environment gives {}", show(&w)), actual: show(&r) });
+                }
+                let t = table(&r, &ids);
+                pool.push((r, t));
+            }
+            _ => {}
+        }
+        for (d, t) in &pool {
+            if table(d, &ids) != *t {
+                return Some(Fail { case: format!("{case} step {step}"), expected: "earlier results keep their meaning".into(), actual: show(d) });
+            }
+        }
+        if quiet(|| (env.mk_const(true), env.mk_const(false))).is_err() {
+            return Some(Fail { case: format!("{case} step {step}"), expected: "both leaves in the table".into(), actual: "mk_const panicked".into() });
+        }
+    }
+    None
+}
+
+fn search_history(budget: usize, seed: u64) -> Option<Fail> {
+    if let Some(f) = case_history("1,3,5|1|0|1") {
+        return Some(f);
+    }
+    for k in 0..(budget / 30).max(50) {
+        if let Some(f) = case_history(&format!("1,3,5|{}|25|0", seed.wrapping_mul(31).wrapping_add(k as u64))) {
+            return Some(f);
+        }
+    }
+    None
+}
+
 // ------------------------------------------------------------------ independent formula semantics
 
 #[derive(Clone, Debug)]
@@ -1649,6 +1751,7 @@ fn main() {
             "formula" => case_formula(c),
             "parse" => case_parse(c),
             "lex" => case_lex(c),
+            "history" => case_history(c),
             "index" => case_index(c),
             _ => std::process::exit(2),
         }
@@ -1665,6 +1768,7 @@ fn main() {
             "formula" => search_formula(budget, seed),
             "parse" => search_parse(budget, seed),
             "lex" => search_lex(budget, seed),
+            "history" => search_history(budget, seed),
             "index" => search_index(budget, seed),
             _ => std::process::exit(2),
         }
